@@ -757,6 +757,8 @@ impl Worker {
         let mut file = self.active_file.take();
         let mut file_set = ActiveFileSet::empty(&self.metrics, &self.dir);
 
+        let had_active_file = file.is_some();
+
         if file.is_none() {
             if let Err(err) = self.fs.create_dir_all(Path::new(&self.dir)) {
                 span.complete_with(emit::span::completion::from_fn(|span| {
@@ -822,6 +824,26 @@ impl Worker {
         let mut file = if let Some(file) = file {
             file
         } else {
+            // If there was an active file then the file set hasn't been read yet
+            // It's needed here so files created by previous batches are retained too
+            if had_active_file {
+                let _ = file_set
+                    .read(&self.fs, &self.file_prefix, &self.file_ext)
+                    .map_err(|err| {
+                        self.metrics.file_set_read_failed.increment();
+
+                        emit::warn!(
+                            rt: emit::runtime::internal(),
+                            "failed to files in read {path}: {err}",
+                            #[emit::as_debug]
+                            path: &file_set.dir,
+                            err,
+                        );
+
+                        err
+                    });
+            }
+
             // Leave room for the file we're about to create
             file_set.apply_retention(&self.fs, self.max_files.saturating_sub(1));
 
